@@ -84,9 +84,10 @@ def sortS (xs : List String) : List String := xs.foldr insertS []
 /-- cache keys of top-level program units only (module members are created on demand by the real factory) -/
 def topLevel (n : Nm) : Bool := n.scope == ""
 
-def showState (st : St) : Sexp :=
-  let st := { st with cache := st.cache.filter (fun e => topLevel e.1) }
+def showState (st0 : St) : Sexp :=
+  let st := { st0 with cache := st0.cache.filter (fun e => topLevel e.1) }
   list [atom "state",
+    list (atom "dead" :: (sortS ((st0.cache.filter (fun e => !hasDef st0.defs e.2)).map (fun e => showNm e.2))).map str),
     list (atom "items" :: (sortS (st.graph.nodes.map showNm)).map str),
     list (atom "deps" :: (sortS (st.graph.edges.map (fun e => showNm e.1 ++ " " ++ showNm e.2))).map str),
     list (atom "cache" :: (sortS (st.cache.map (fun e => showNm e.1))).map str),
